@@ -33,6 +33,7 @@
 #include <unifex/variant_sender.hpp>
 
 #include <exception>
+#include <optional>
 #include <utility>
 
 #include <unifex/detail/prologue.hpp>
@@ -679,7 +680,10 @@ struct _future_stop_callback_factory final {
     using stop_callback_t =
         inplace_stop_token::callback_type<decltype(stopCallback)>;
 
-    return stop_callback_t{stopToken_, stopCallback};
+    // wrapped in an optional so that the future can deregister the callback
+    // before it gives up (or hands over) ownership of the spawned operation
+    return std::optional<stop_callback_t>{
+        std::in_place, stopToken_, stopCallback};
   }
 };
 
@@ -716,11 +720,18 @@ struct _future_sender_from_stop_token<T...>::type final {
   auto operator()(inplace_stop_token stopToken) noexcept {
     return let_value_with(
         _future_stop_callback_factory{op_.get(), stopToken},
-        [this](auto&) noexcept {
+        [this](auto& stopCallback) noexcept {
           return let_value(
               op_->evt_.async_wait(),
-              [this]() noexcept(
+              [this, &stopCallback]() noexcept(
                   noexcept(op_->get_value_sender(), op_->get_error_sender())) {
+                // Stop listening for stop requests first: the callback calls
+                // abandon() on the spawned operation, which we are about to
+                // delete (or hand over to the still-running operation); a
+                // stop request that arrives while the result is delivered
+                // would otherwise touch the deleted operation state.
+                stopCallback.reset();
+
                 auto rawOp = op_.release();
 
                 using value_t = decltype(op_->get_value_sender());
